@@ -18,7 +18,7 @@ import (
 )
 
 // The property's own observation point: rendered literals are embedded as `var vN T = <text>` in ONE
-// generated Go file per batch (with the imports gengo registered), compiled and run offline; the
+// generated package per batch (one file per literal, each with exactly the imports gengo registered for it), compiled and run offline; the
 // program prints a canonical dump of every variable, which is compared with the dump of the original.
 
 type item struct {
@@ -100,7 +100,7 @@ func (b *batcher) run(items []*item) {
 	}
 }
 
-var errLine = regexp.MustCompile(`zz_batch\.go:(\d+):(\d+): (.*)`)
+var errLine = regexp.MustCompile(`zz_v(\d+)\.go:(\d+):(\d+): (.*)`)
 
 // compileAndRun builds one program for the items; items whose literal does not compile are reported
 // and dropped, the rest is rebuilt; errors that cannot be attributed split the batch.
@@ -118,7 +118,7 @@ func compileAndRun(items []*item, depth int) []itemResult {
 		for j, i := range alive {
 			sub[j] = items[i]
 		}
-		out, spans, err := buildAndRun(sub)
+		out, err := buildAndRun(sub)
 		if err == nil {
 			for j, i := range alive {
 				d, ok := out[j]
@@ -132,13 +132,9 @@ func compileAndRun(items []*item, depth int) []itemResult {
 		// attribute compile errors to variables
 		bad := map[int]string{}
 		for _, m := range errLine.FindAllStringSubmatch(err.Error(), -1) {
-			ln, _ := strconv.Atoi(m[1])
-			for j, sp := range spans {
-				if ln >= sp[0] && ln <= sp[1] {
-					if _, seen := bad[j]; !seen {
-						bad[j] = m[3]
-					}
-				}
+			j, _ := strconv.Atoi(m[1])
+			if _, seen := bad[j]; !seen && j < len(alive) {
+				bad[j] = m[4]
 			}
 		}
 		if strings.HasPrefix(err.Error(), "infrastructure:") {
@@ -193,12 +189,12 @@ func firstLines(s string, n int) string {
 	return strings.Join(ls, " | ")
 }
 
-// buildAndRun writes the scratch module, compiles and runs it. out: index -> dump.  spans: the line
-// range of each variable declaration in zz_batch.go.
-func buildAndRun(items []*item) (out map[int]string, spans [][2]int, err error) {
+// buildAndRun writes the scratch module, compiles and runs it. out: index -> dump.  The declaration of
+// variable vN is the file zz_vN.go (compile errors are attributed by file name).
+func buildAndRun(items []*item) (out map[int]string, err error) {
 	dir, e := os.MkdirTemp("", "c10batch-")
 	if e != nil {
-		return nil, nil, e
+		return nil, e
 	}
 	defer os.RemoveAll(dir)
 	self := items[0].self
@@ -221,69 +217,64 @@ func buildAndRun(items []*item) (out map[int]string, spans [][2]int, err error) 
 	must(os.WriteFile(filepath.Join(dir, "cmd", "main.go"),
 		[]byte("package main\n\nimport p \"verifharness/"+pkgDir+"\"\n\nfunc main() { p.RunBatch() }\n"), 0o644))
 	if err != nil {
-		return nil, nil, err
+		return nil, err
 	}
 
-	// imports: what gengo registered (union over the batch) + the harness' own aliases for the declared types
-	type imp struct{ local, path string }
-	seen := map[imp]bool{}
-	var imps []imp
-	for _, it := range items {
-		for path, local := range it.imports {
-			k := imp{local, path}
-			if !seen[k] {
-				seen[k] = true
-				imps = append(imps, k)
+	// one file per literal: `var vN T = <text>` with EXACTLY the imports gengo registered while rendering it (under the
+	// registered local names) plus the harness' own aliases htyK for the packages of the declared type T.  The compiler
+	// thus judges every literal against its own import set: a registered import the text does not use is reported as
+	// "imported and not used" in that literal's file, a package the text uses without registering it as "undefined".
+	for i, it := range items {
+		aliases := map[string]string{}
+		var apaths []string
+		alias := func(path string) string {
+			if a, ok := aliases[path]; ok {
+				return a
 			}
-		}
-	}
-	sort.Slice(imps, func(i, j int) bool { return imps[i].local+imps[i].path < imps[j].local+imps[j].path })
-	aliases := map[string]string{}
-	alias := func(path string) string {
-		if a, ok := aliases[path]; ok {
+			a := fmt.Sprintf("hty%d", len(aliases))
+			aliases[path] = a
+			apaths = append(apaths, path)
 			return a
 		}
-		a := fmt.Sprintf("hty%d", len(aliases))
-		aliases[path] = a
-		return a
-	}
-	var decl strings.Builder
-	var lines []string
-	for i, it := range items {
-		lines = append(lines, fmt.Sprintf("var v%d %s = %s", i, goType(it.typ, q, alias), it.text))
+		declType := goType(it.typ, q, alias)
+		var paths []string
+		for path := range it.imports {
+			paths = append(paths, path)
+		}
+		sort.Slice(paths, func(a, b int) bool { return it.imports[paths[a]]+paths[a] < it.imports[paths[b]]+paths[b] })
+		var b strings.Builder
+		fmt.Fprintf(&b, "package %s\n\n", pkgName)
+		if len(paths)+len(apaths) > 0 || (!inTypes && strings.Contains(declType, q)) {
+			b.WriteString("import (\n")
+			for _, path := range paths {
+				fmt.Fprintf(&b, "\t%s %q\n", it.imports[path], path)
+			}
+			for _, path := range apaths {
+				fmt.Fprintf(&b, "\t%s %q\n", aliases[path], path)
+			}
+			if !inTypes && strings.Contains(declType, q) {
+				fmt.Fprintf(&b, "\thdump %q\n", c10typesPath)
+			}
+			b.WriteString(")\n\n")
+		}
+		fmt.Fprintf(&b, "var v%d %s = %s\n", i, declType, it.text)
+		if e := os.WriteFile(filepath.Join(dir, pkgDir, fmt.Sprintf("zz_v%d.go", i)), []byte(b.String()), 0o644); e != nil {
+			return nil, e
+		}
 	}
 	var b strings.Builder
 	fmt.Fprintf(&b, "package %s\n\nimport (\n", pkgName)
-	for _, im := range imps {
-		fmt.Fprintf(&b, "\t%s %q\n", im.local, im.path)
-	}
-	var apaths []string
-	for p := range aliases {
-		apaths = append(apaths, p)
-	}
-	sort.Strings(apaths)
-	for _, p := range apaths {
-		fmt.Fprintf(&b, "\t%s %q\n", aliases[p], p)
-	}
 	if !inTypes {
 		fmt.Fprintf(&b, "\thdump %q\n", c10typesPath)
 	}
-	b.WriteString("\thfmt \"fmt\"\n\threflect \"reflect\"\n)\n\n")
-	line := strings.Count(b.String(), "\n") + 1
-	for _, l := range lines {
-		n := strings.Count(l, "\n")
-		spans = append(spans, [2]int{line, line + n})
-		decl.WriteString(l + "\n")
-		line += n + 1
-	}
-	b.WriteString(decl.String())
+	b.WriteString("\thfmt \"fmt\"\n\threflect \"reflect\"\n)\n")
 	b.WriteString("\nfunc RunBatch() {\n")
 	for i := range items {
 		fmt.Fprintf(&b, "\thfmt.Printf(\"%%d\\t%%s\\n\", %d, %sDump(hreflect.ValueOf(&v%d).Elem()))\n", i, q, i)
 	}
 	b.WriteString("}\n")
 	if e := os.WriteFile(filepath.Join(dir, pkgDir, "zz_batch.go"), []byte(b.String()), 0o644); e != nil {
-		return nil, spans, e
+		return nil, e
 	}
 
 	ctx, cancel := context.WithTimeout(context.Background(), 240*time.Second)
@@ -293,9 +284,9 @@ func buildAndRun(items []*item) (out map[int]string, spans [][2]int, err error) 
 	cmd.Env = append(os.Environ(), "GOFLAGS=-mod=mod", "GOPROXY=off")
 	if o, e := cmd.CombinedOutput(); e != nil {
 		if ctx.Err() != nil || !bytes.Contains(o, []byte(".go:")) {
-			return nil, spans, fmt.Errorf("infrastructure: go build: %v %s", e, firstLines(string(o), 2))
+			return nil, fmt.Errorf("infrastructure: go build: %v %s", e, firstLines(string(o), 2))
 		}
-		return nil, spans, fmt.Errorf("go build: %v\n%s", e, o)
+		return nil, fmt.Errorf("go build: %v\n%s", e, o)
 	}
 	ctx2, cancel2 := context.WithTimeout(context.Background(), 60*time.Second)
 	defer cancel2()
@@ -304,10 +295,10 @@ func buildAndRun(items []*item) (out map[int]string, spans [][2]int, err error) 
 	run.Stdout, run.Stderr = &so, &se
 	if e := run.Run(); e != nil {
 		if ctx2.Err() != nil {
-			return nil, nil, fmt.Errorf("infrastructure: the generated program timed out")
+			return nil, fmt.Errorf("infrastructure: the generated program timed out")
 		}
 		// a run-time failure (cannot be attributed to a line): report it on every variable
-		return nil, nil, fmt.Errorf("the generated program failed: %v %s", e, firstLines(se.String(), 3))
+		return nil, fmt.Errorf("the generated program failed: %v %s", e, firstLines(se.String(), 3))
 	}
 	out = map[int]string{}
 	for _, l := range strings.Split(so.String(), "\n") {
@@ -317,5 +308,5 @@ func buildAndRun(items []*item) (out map[int]string, spans [][2]int, err error) 
 			}
 		}
 	}
-	return out, spans, nil
+	return out, nil
 }
